@@ -84,6 +84,7 @@ Ok(e) ==
 
 (* a short reason for the report (evaluated only when Ok(e) is FALSE)      *)
 Why(e) ==
+  IF Get(e, "aud", TRUE) # TRUE THEN e.ev \o ": stoAudit did not complete" ELSE
   CASE e.ev = "Alloc" ->
          LET a == Addr(e.pg, e.off) IN
          IF ~AddrOk(e.pg, e.off) THEN "Alloc: address out of range"
